@@ -56,24 +56,22 @@ def _decision(name, seed=None):
 # oracles
 # ------------------------------------------------------------------------------------------------
 def _best_matchings(r):
-    """(optimal value, list of optimal complete matchings as frozensets of (i,j)) by brute force."""
+    """(optimal value, list of optimal complete matchings as frozensets of (i,j)) by brute force.
+
+    Two passes: totals within summation rounding (2e-12 relative) of the maximum count as optimal. (A single pass that compared
+    with a running best +- 1e-12 dropped the matching 1 + 1e-12 found after 1.0: 1.0 + 1e-12 - 1.0 = 1.00009e-12 fell between
+    its two branches - a false alarm of the thorough tier.)"""
     n, m = r.shape
-    best, sols = None, []
+    cands = []
     if n <= m:
         for cols in itertools.permutations(range(m), n):
-            val = sum(r[i, cols[i]] for i in range(n))
-            if best is None or val > best + 1e-12:
-                best, sols = val, [frozenset((i, cols[i]) for i in range(n))]
-            elif abs(val - best) <= 1e-12:
-                sols.append(frozenset((i, cols[i]) for i in range(n)))
+            cands.append((sum(r[i, cols[i]] for i in range(n)), frozenset((i, cols[i]) for i in range(n))))
     else:
         for rows in itertools.permutations(range(n), m):
-            val = sum(r[rows[j], j] for j in range(m))
-            if best is None or val > best + 1e-12:
-                best, sols = val, [frozenset((rows[j], j) for j in range(m))]
-            elif abs(val - best) <= 1e-12:
-                sols.append(frozenset((rows[j], j) for j in range(m)))
-    return best, sols
+            cands.append((sum(r[rows[j], j] for j in range(m)), frozenset((rows[j], j) for j in range(m))))
+    best = max(val for val, _ in cands)
+    slack = 2e-12 * (1.0 + abs(best))
+    return best, [sol for val, sol in cands if val >= best - slack]
 
 
 def _dp_opt(r, forced=(), forbidden=()):
